@@ -1,7 +1,7 @@
 ------------------------------ MODULE C18_Trace ------------------------------
 (* Trace validation for C18: the stub of one module in two runs on related packages. *)
 EXTENDS Naturals, Sequences, TLC, Json, IOUtils
-L == INSTANCE Locality WITH base <- "", kind <- "", pkg <- 0, stubA <- 0, stubB <- 0, pc <- ""
+L == INSTANCE Locality WITH base <- "", kind <- "", feat <- <<>>, pkg <- 0, stubA <- 0, stubB <- 0, pc <- ""
 Obs == JsonDeserialize(IOEnv.OBS_FILE)
 VARIABLES n, bad
 TInit == n = 0 /\ bad = {}
